@@ -129,6 +129,30 @@ def r2_variants(chk):
         names = set(n.id for n in ast.walk(fz[0]) if isinstance(n, ast.Name) and isinstance(n.ctx, ast.Load))
         ok = ok and names <= (set(['self', L, p]) | stores)
     chk.ob('C14.R2', 'getMibVariants/fuzzy', ok, where(mod, fn), 'fuzzy candidates must only add or strip -mib')
+    if len(fz) == 1:
+        # polarity: strip when the suffix was found, add when it was not
+        strip = [c for c in walk_no_nested(fz[0]) if isinstance(c, ast.Call) and norm(c.func) == '%s.extend' % L]
+        add_ = [c for c in walk_no_nested(fz[0]) if isinstance(c, ast.Call) and norm(c.func) == '%s.append' % L]
+        fa = [s_ for s_ in walk_no_nested(fz[0]) if isinstance(s_, ast.Assign) and isinstance(s_.targets[0], ast.Name) and
+              norm(s_.value).endswith(".find('-mib')")]
+        b_ = {'part': fa[0].targets[0].id} if len(fa) == 1 else None
+        chk.ob('C14.R2', 'getMibVariants/fuzzy-suffix-search', b_ is not None, where(mod, fz[0]), '')
+        if b_:
+            found = ('%s != -1' % b_['part'], '%s >= 0' % b_['part'], '%s > -1' % b_['part'])
+            gs1 = [g for c in strip for g in _g(c, fn) if g[0] != 'self.fuzzyMatching']
+            gs2 = [g for c in add_ for g in _g(c, fn) if g[0] != 'self.fuzzyMatching']
+            absent = ('%s == -1' % b_['part'], '%s < 0' % b_['part'])
+
+            def has(g, want):
+                return (g[0] in found and g[1] == want) or (g[0] in absent and g[1] != want)
+            okp = bool(strip) and bool(add_) and all(has(g, True) for g in gs1) and \
+                all(has(g, False) for g in gs2) and len(gs1) == len(strip) and len(gs2) == len(add_)
+            chk.ob('C14.R2', 'getMibVariants/fuzzy-polarity', okp, where(mod, fz[0]),
+                   'names are cut at -mib when the name has that suffix and get it added when it has not (guards %s / %s)'
+                   % (gs1, gs2))
+            src_ok = norm(fz[0]).count("%s[-1].find('-mib')" % L) == 1
+            chk.ob('C14.R2', 'getMibVariants/suffix-looked-up-in-the-lower-case-name', src_ok, where(mod, fz[0]),
+                   'the suffix is searched for in the last (lower-case) candidate')
     # any other append / source of names?
     apps = [c for c in walk_no_nested(fn) if isinstance(c, ast.Call) and isinstance(c.func, ast.Attribute) and
             c.func.attr in ('append', 'extend', 'insert') and _key_is(c.func.value, L)]
@@ -150,8 +174,13 @@ def r2_variants(chk):
         exts = ev.class_attr(ci, 'exts')
     except Unknown:
         exts = None
-    chk.ob('C14.R2', 'AbstractReader.exts', exts is not None and exts[0] == '' and set(e.lower() for e in exts) == set(
-        ['', '.txt', '.mib', '.my']), BASE, 'exts = %s' % (exts,))
+    chk.ob('C14.R2', 'AbstractReader.exts', exts is not None and exts[0] == '' and set(exts) == set(
+        ['', '.txt', '.mib', '.my', '.TXT', '.MIB', '.MY']), BASE, 'exts = %s' % (exts,))
+    ca = dict((t_.id, norm(s_.value)) for s_ in ci.node.body if isinstance(s_, ast.Assign) for t_ in s_.targets
+              if isinstance(t_, ast.Name))
+    flags = ('fuzzyMatching', 'originalMatching', 'uppercaseMatching', 'lowcaseMatching')
+    chk.ob('C14.R2', 'AbstractReader/all-variants-on-by-default', all(ca.get(f_) == 'True' for f_ in flags), BASE,
+           'documented defaults: every matching option is on (found %s)' % dict((f_, ca.get(f_)) for f_ in flags))
 
 
 def tests_of(node, fn):
